@@ -404,6 +404,9 @@ func (e *Engine) verifyFunc(fc *FuncContract) []*Oblig {
 	}
 	if sig.Recv() != nil {
 		bindParam(sig.Recv())
+		if rv, ok := scope[sig.Recv().Name()]; ok {
+			scope["self"] = rv
+		}
 	}
 	for i := 0; i < sig.Params().Len(); i++ {
 		bindParam(sig.Params().At(i))
@@ -421,7 +424,7 @@ func (e *Engine) verifyFunc(fc *FuncContract) []*Oblig {
 	}
 	// replay template
 	{
-		ri := &ReplayInfo{PkgName: pkg.Name, Func: decl.Name.Name, Method: sig.Recv() != nil, TagTypes: map[int]types.Type{}}
+		ri := &ReplayInfo{PkgName: pkg.Name, PkgPath: pkg.PkgPath, Func: decl.Name.Name, Method: sig.Recv() != nil, TagTypes: map[int]types.Type{}}
 		if len(pkg.GoFiles) > 0 {
 			if rel, err := filepath.Rel(e.repo, filepath.Dir(pkg.GoFiles[0])); err == nil {
 				ri.PkgDir = rel
